@@ -306,7 +306,7 @@ Definition prop_schema (d : fdecl) : schema :=
 Definition required_out (m : renames) (c : classdef) : list pystr :=
   let req := map (rename m) (c_required c) in
   let extra := flat_map (fun d => match fd_default d with
-                                  | Some _ => if str_in (rename m (fd_name d)) req then [] else [rename m (fd_name d)]
+                                  | Some _ => if str_in (fd_name d) (c_required c) then [] else [rename m (fd_name d)]
                                   | None => []
                                   end) (c_fields c) in
   sort_str (req ++ extra).
